@@ -110,6 +110,7 @@ func H_C19_xml_tree_roundtrip(s any) {
 }
 
 // on input the elements of a list may be interleaved with their siblings
+//
 //vp:setup S_c19
 func H_C19_xmlnode_interleaved(s any) {
 	m := s.(*meta.Module)
